@@ -243,7 +243,23 @@ def baseline_of(modules: typing.Dict[str, typing.Any]) -> dict:
                                     and isinstance(st.value, ast.List) and not st.value.elts})}
     out[name] = d
     out.setdefault("_module_names", {})[name] = sorted(keep)
+    out.setdefault("_module_consts", {})[name] = module_const_hashes(m.tree)
   return out
+
+
+def module_const_hashes(tree) -> typing.Dict[str, str]:
+  """module-level `NAME = <value>` (one plain binding) -> hash of the value's text."""
+  out, seen = {}, {}
+  for st in tree.body:
+    if isinstance(st, ast.Assign) and len(st.targets) == 1 and isinstance(st.targets[0], ast.Name):
+      nm, val = st.targets[0].id, st.value
+    elif isinstance(st, ast.AnnAssign) and isinstance(st.target, ast.Name) and st.value is not None:
+      nm, val = st.target.id, st.value
+    else:
+      continue
+    seen[nm] = seen.get(nm, 0) + 1
+    out[nm] = hashlib.sha1(ast.unparse(val).encode()).hexdigest()[:16]
+  return {k: v for k, v in out.items() if seen[k] == 1}
 
 
 def load_baseline() -> typing.Optional[dict]:
@@ -978,6 +994,7 @@ def canonicalise(modules: typing.Dict[str, typing.Any], baseline: typing.Optiona
     if base is None or name.startswith("_"):
       continue
     try:
+      rename_private_globals(name, m.tree, set(ref_names.get(name, ())), baseline.get("_module_consts", {}).get(name, {}), base, log)
       if name in ref_names:
         inline_new_constants(name, m.tree, set(ref_names[name]), imported, log)
       _canon_module(name, m, base, log, attr_renames)
@@ -994,6 +1011,55 @@ def canonicalise(modules: typing.Dict[str, typing.Any], baseline: typing.Optiona
       if changed:
         relink(m.tree)
   return log
+
+
+def _rename_everywhere(tree, old, new):
+  for n in ast.walk(tree):
+    if isinstance(n, ast.Name) and n.id == old:
+      n.id = new
+    elif isinstance(n, ast.Attribute) and n.attr == old:
+      n.attr = new
+    elif isinstance(n, (ast.ClassDef, ast.FunctionDef)) and n.name == old:
+      n.name = new
+
+
+def rename_private_globals(name, tree, ref_names, ref_consts, base, log):
+  """Renamed private module-level constants (a new private / upper-case name bound to the value a
+  missing reference name had) and renamed private classes (a new private class with the methods of
+  a missing reference class) are mapped back to the reference's names."""
+  if not ref_names:
+    return
+  cur_names = module_names(tree)
+  cur_consts = module_const_hashes(tree)
+  missing = {r for r in ref_names - cur_names if r in ref_consts}
+  for n_, h in sorted(cur_consts.items()):
+    if n_ in ref_names or not (_is_private(n_) or n_.isupper()):
+      continue
+    cands = [r for r in missing if ref_consts[r] == h and (_is_private(r) or r.isupper())]
+    if len(cands) == 1:
+      _rename_everywhere(tree, n_, cands[0])
+      missing.discard(cands[0])
+      log.append(f"{name}: module-level constant `{n_}` is the reference's `{cands[0]}` (same value): mapped back")
+  # classes: reference classes are the prefixes of the reference's method names
+  def classes_of(qs):
+    out = {}
+    for q in qs:
+      if "." in q and ".<locals>." not in q:
+        c, meth = q.rsplit(".", 1)
+        out.setdefault(c, set()).add(meth)
+    return out
+  ref_cls = classes_of(base)
+  cur_cls = classes_of(functions_of(tree))
+  gone = {c: ms for c, ms in ref_cls.items() if c not in cur_cls and "." not in c}
+  for c_new, ms in sorted(cur_cls.items()):
+    if c_new in ref_cls or "." in c_new or not _is_private(c_new):
+      continue
+    cands = [c for c, ms0 in gone.items() if _is_private(c) and (ms0 == ms or (len(ms0) == len(ms) and len(ms0 & ms) >= len(ms) - 1))]
+    if len(cands) == 1:
+      _rename_everywhere(tree, c_new, cands[0])
+      del gone[cands[0]]
+      log.append(f"{name}: private class `{c_new}` is the reference's `{cands[0]}` (same methods): mapped back")
+  relink(tree)
 
 
 def _canon_module(name, m, base, log, attr_renames):
@@ -1064,6 +1130,13 @@ def _canon_module(name, m, base, log, attr_renames):
       if done:
         progressed = True
         log.append(f"{name}: new private helper `{q}` ({kind}) inlined at {done} call site(s)")
+        # `x = helper()` whose helper built its result in a local also called x leaves `x = x`: dropped
+        for n in list(ast.walk(tree)):
+          if isinstance(n, ast.Assign) and len(n.targets) == 1 and isinstance(n.targets[0], ast.Name) and isinstance(n.value, ast.Name) and n.value.id == n.targets[0].id:
+            hold_ = _holder(n)
+            if hold_ is not None and len(hold_[0]) > 1:
+              del hold_[0][hold_[1]]
+        relink(tree)
         if done == len(sites):
           hold = _holder(h)
           if hold is not None:
